@@ -82,19 +82,54 @@ def run(c):
                 except Exception:
                     pass
                 c.violation("eval-simd-variants", "variant-disagreement", wit)
-    c.evaluations = st["inc"].get("evaluations", 0) + st["inc"].get("nn_evaluations", 0) + st["sym"].get("flip_checks", 0) + st["sym"].get("mirror_checks", 0) + \
+    # part 2: the evaluator hook inside real (scheduled, multi-threaded) searches
+    import random, re
+    from . import c10
+    B.build([("rel", "h_cos")])
+    hook_checked = hook_evals = 0
+    nhook = int((24 if quick else 1500) * c.scale)
+    hcmds, hscripts = [], []
+    for i in range(nhook):
+        rnd = random.Random(c.seed * 7919 + i)
+        lines, desc, threads = c10.gen_script(rnd)
+        sf = os.path.join(core.TMP, "c07_%d_%d.script" % (os.getpid(), i))
+        with open(sf, "w") as f:
+            f.write("\n".join(lines) + "\n")
+        hscripts.append(sf)
+        net = NETS[i % len(NETS)]
+        hcmds.append(([B.exe("rel", "h_cos"), sf, "seed=%d" % (c.seed * 100 + i), "evalcheck=%d" % rnd.choice([2, 5, 11, 30])], {"VERIF_NET": core.net_path(net)}))
+    hres = core.run_many(hcmds, timeout=900)
+    for sf in hscripts:
+        os.unlink(sf)
+    for r in hres:
+        if r.timeout:
+            c.inconclusive.append("h_cos evalcheck watchdog"); continue
+        for l in r.stdout.splitlines():
+            if l.startswith("EVALDIFF"):
+                c.violation("eval-in-search-hook", "search-evaluation-differs-from-fresh", l.split(" ", 4)[4] + " | " + " ".join(r.cmd[2:]))
+        m = re.search(r"evals (\d+) evalchecked (\d+) evalbad (\d+)", r.stdout)
+        if m:
+            hook_evals += int(m.group(1)); hook_checked += int(m.group(2))
+        elif "RESULT deadlock" in r.stdout:
+            c.inconclusive.append("h_cos deadlock during evalcheck run (C10's business)")
+    c.extra["inconclusive_allowed"] = 2
+    c.evaluations = hook_checked + st["inc"].get("evaluations", 0) + st["inc"].get("nn_evaluations", 0) + st["sym"].get("flip_checks", 0) + st["sym"].get("mirror_checks", 0) + \
         st["inc_asan"].get("evaluations", 0) + n_stream * len(NETS) * len(variants)
     c.distinct = core.count_distinct(hfiles)
     c.rule = ("per network (material-like x2, random small, random wide, extreme weights): (1) walks with make/unmake, take-back segments, null-move edits with evaluation inside, evaluator "
               "re-connection, position assignment into the connected position, unwinding below the evaluator's stack base, castling / capture-promotion / king moves; after ~45% of the steps "
               "Evaluate::evalPos() on warm shared tables (used before with other contempt values) and NNEvaluator::eval() are compared with a brand-new evaluator on a copy; "
               "(2) eval(P,c) == eval(colour-swap(P),-c) and == eval(left-right mirror(P),c) without castling rights, incl. the material classes of the hand-written endgame rules; "
-              "(3) the same seeded stream of positions through every SIMD build: digests per 1000 positions must agree. distinct_nontrivial = distinct walks + distinct symmetry positions")
+              "(2b) evaluator hook inside real multi-threaded searches run under the cooperative scheduler: every k-th evaluation (k in {2,5,11,30}) is recomputed on a copy with a brand-new "
+              "evaluator and the same contempt; (3) the same seeded stream of positions through every SIMD build: digests per 1000 positions must agree. distinct_nontrivial = distinct walks + distinct symmetry positions")
     c.extra.update(networks=NETS, simd_variants=variants, walks=st["inc"].get("walks", 0), null_edits=st["inc"].get("null_edits", 0), reconnects=st["inc"].get("reconnects", 0),
                    assignments=st["inc"].get("assignments", 0), takebacks=st["inc"].get("takebacks", 0), castlings=st["inc"].get("castlings", 0),
                    capture_promotions=st["inc"].get("capture_promotions", 0), king_moves=st["inc"].get("king_moves", 0),
                    flip_checks=st["sym"].get("flip_checks", 0), mirror_checks=st["sym"].get("mirror_checks", 0),
-                   endgame_rule_material_positions=st["sym"].get("endgame_rule_material_positions", 0), stream_blocks_compared=blocks_compared, exhaustive=False)
+                   endgame_rule_material_positions=st["sym"].get("endgame_rule_material_positions", 0), stream_blocks_compared=blocks_compared,
+                   in_search_evaluations_observed=hook_evals, in_search_evaluations_recomputed=hook_checked, exhaustive=False)
+    if hook_checked == 0:
+        raise core.HarnessError("evaluator hook never fired")
     c.assumptions += ["synthetic networks; the repository's optimisation level (-O3) is used for all non-sanitizer variants (with GCC 12.2 -O2 the generic first-layer code is miscompiled by the SLP vectoriser; UBSan finds no undefined behaviour and -O3, the project's own setting, is unaffected - see DESIGN.md)",
                       "in-search evaluations are covered by the evaluator hook (C07 part 2) when the hook commit is present"]
     if blocks_compared == 0 and len(variants) > 1:
